@@ -3,7 +3,8 @@ package txsim
 // Event is one wallet-level event in model terms.
 //
 //	K: seen | confirm | disconnect | abandon | lease | release | tick | sweep |
-//	   redeliver (H < 0: as unconfirmed; else the confirming block H,B,BT)
+//	   redeliver (H < 0: as unconfirmed; else the confirming block H,B,BT) |
+//	   restart (C12 only: close and reopen; no effect on the facts)
 type Event struct {
 	K     string   `json:"k"`
 	T     int64    `json:"t,omitempty"`     // txid
